@@ -702,22 +702,9 @@ func checkRecordDispatch(prog *core.Program, r4 *core.RuleRun, fname string, wan
 		}
 		return false
 	}
-	allInstrs(fn, func(ins ssa.Instruction) {
-		mu, ok := ins.(*ssa.MapUpdate)
-		if !ok {
-			return
-		}
-		kc, ok := mu.Key.(*ssa.Const)
-		if !ok || kc.Value == nil {
-			return
-		}
-		key := strings.Trim(kc.Value.ExactString(), "\"")
-		typ := ""
-		if n := namedOf(underIface(mu.Value).Type()); n != nil {
-			typ = n.Obj().Name()
-		}
-		// the format constant guarding this block
-		for b := mu.Block(); b != nil; b = b.Idom() {
+	// guardOf: the format constant whose `==` true edge dominates block b
+	guardOf := func(b *ssa.BasicBlock, key, typ string) {
+		for ; b != nil; b = b.Idom() {
 			id := b.Idom()
 			if id == nil {
 				break
@@ -736,12 +723,42 @@ func checkRecordDispatch(prog *core.Program, r4 *core.RuleRun, fname string, wan
 									partial = printExpr(fn, be.X, 0)
 								}
 							}
+							return
 						}
 					}
 				}
 			}
-			if _, found := got[0]; found {
-				break
+		}
+	}
+	typeName := func(v ssa.Value) string {
+		if n := namedOf(underIface(v).Type()); n != nil {
+			return n.Obj().Name()
+		}
+		return ""
+	}
+	allInstrs(fn, func(ins ssa.Instruction) {
+		mu, ok := ins.(*ssa.MapUpdate)
+		if !ok {
+			return
+		}
+		if kc, ok := mu.Key.(*ssa.Const); ok && kc.Value != nil {
+			guardOf(mu.Block(), strings.Trim(kc.Value.ExactString(), "\""), typeName(mu.Value))
+			return
+		}
+		// key and value chosen per record format earlier and merged: pair the merge's incoming values
+		kphi, ok1 := mu.Key.(*ssa.Phi)
+		vphi, ok2 := mu.Value.(*ssa.Phi)
+		if ok1 && ok2 && kphi.Block() == vphi.Block() {
+			for i, ke := range kphi.Edges {
+				kc, ok := ke.(*ssa.Const)
+				if !ok || kc.Value == nil {
+					continue
+				}
+				key := strings.Trim(kc.Value.ExactString(), "\"")
+				if key == "" {
+					continue
+				}
+				guardOf(kphi.Block().Preds[i], key, typeName(vphi.Edges[i]))
 			}
 		}
 	})
